@@ -41,31 +41,38 @@ func TestVerifC03Race(t *testing.T) {
 		}
 		var wg sync.WaitGroup
 		start := make(chan struct{})
-		var accepted, refused, missed, inconclusive int32
-		reqs := make([]*http.Request, claimers)
-		ended := make([]time.Time, claimers)
+		var accepted, refused, missed int32
+		type acc struct {
+			r  *http.Request
+			at time.Time
+		}
+		var mu sync.Mutex
+		var all []acc
 		for i := 0; i < claimers; i++ {
 			wg.Add(1)
 			go func(i int) {
 				defer wg.Done()
 				<-start
-				for k := 0; k < i*3; k++ { // spread the attempts over the first microseconds of the drain
-					_ = k
+				// requests keep arriving until the target refuses one (it is draining)
+				for n := 0; n < 20000; n++ {
+					r, err := target.StartRequest(httptest.NewRequest("GET", "/", nil))
+					now := time.Now()
+					if err != nil {
+						atomic.AddInt32(&refused, 1)
+						return
+					}
+					atomic.AddInt32(&accepted, 1)
+					mu.Lock()
+					all = append(all, acc{r, now})
+					mu.Unlock()
 				}
-				r, err := target.StartRequest(httptest.NewRequest("GET", "/", nil))
-				ended[i] = time.Now()
-				if err != nil {
-					atomic.AddInt32(&refused, 1)
-					return
-				}
-				atomic.AddInt32(&accepted, 1)
-				reqs[i] = r
 			}(i)
 		}
 		done := make(chan struct{})
 		var drainStart time.Time
 		go func() {
 			<-start
+			time.Sleep(time.Duration(round%50) * time.Microsecond)
 			drainStart = time.Now()
 			target.Drain(20 * time.Millisecond)
 			close(done)
@@ -73,23 +80,16 @@ func TestVerifC03Race(t *testing.T) {
 		close(start)
 		<-done
 		wg.Wait()
-		for i, r := range reqs {
-			if r != nil && r.Context().Err() == nil {
-				// accepted and not cut off, so it was not in the drain's snapshot: it was accepted after the mark. The
-				// drain cannot end before its deadline (r0 never finishes; a timer never fires early), so an accept
-				// that had returned before drainStart + 19 ms happened while the target was draining.
-				if ended[i].Before(drainStart.Add(19 * time.Millisecond)) {
-					missed++
-				} else {
-					inconclusive++
-				}
+		for _, a := range all {
+			// accepted and not cut off, so it was not in the drain's snapshot: it was accepted after the mark. The
+			// drain cannot end before its deadline (r0 never finishes; a timer never fires early), so an accept
+			// that had returned before drainStart + 19 ms happened while the target was draining.
+			if a.r.Context().Err() == nil && a.at.Before(drainStart.Add(19*time.Millisecond)) && a.at.After(drainStart) {
+				missed++
 			}
-			if r != nil {
-				target.endInflightRequest(r)
-			}
+			target.endInflightRequest(a.r)
 		}
 		target.endInflightRequest(r0)
-		_ = inconclusive
 		out.emit(map[string]any{"round": round, "accepted": accepted, "refused": refused, "accepted_not_cut_off": missed})
 	}
 }
